@@ -223,7 +223,17 @@ pub fn run(sc: &Value, id: usize, out: Out) {
             let r = guarded(|| -> Value {
                 use std::ops::*;
                 match op {
-                    "ctor" => aff_json(&aff_ctor(&sc["ctor"]), q),
+                    "ctor" => {
+                        let mut v = aff_json(&aff_ctor(&sc["ctor"]), q);
+                        // constructors that take a matrix are called a second time with the matrix stored column-major (same values)
+                        if sc["ctor"]["ctor"].as_str() == Some("rotation") {
+                            let was = crate::tj::FORDER.with(|f| f.replace(true));
+                            let alt = guarded(|| aff_json(&aff_ctor(&sc["ctor"]), q));
+                            crate::tj::FORDER.with(|f| f.set(was));
+                            v["alt"] = alt.unwrap_or(json!({"m": [], "b": [], "q": 1, "n": 0, "ex": true}));
+                        }
+                        v
+                    }
                     "compose" => aff_json(&aff_from(&sc["f"]).compose(&aff_from(&sc["g"])), q),
                     "stack" => aff_json(&aff_from(&sc["f"]).stack(&aff_from(&sc["g"])), q),
                     "add" | "sub" | "mul" | "div" | "rem" => {
